@@ -323,3 +323,20 @@ if __name__ == '__main__':
         phase_check(jobs, '--redo-silent' in a)
     elif a[0] == 'report':
         report()
+    elif a[0] == 'one':
+        # sweep.py one <mutant-id> [check ids]: run the checks on one mutant and print their reports
+        muts = {m['id']: m for m in load('mutants.json', [])}
+        m = muts[a[1]]
+        d = tempfile.mkdtemp(prefix='sweepone-', dir='/tmp')
+        w = d + '/r'
+        try:
+            subprocess.run(['git', '-C', REPO, 'worktree', 'add', '--detach', '-q', w, 'HEAD'], check=True)
+            apply(w, m)
+            env = dict(os.environ, VERIF_REPO=w, VERIF_EVIDENCE_DIR=d + '/ev', VERIF_REPORT_DIR=d + '/rep')
+            print(m['file'], m['line'], m['new'].strip())
+            for c in (a[2:] or ALL):
+                r = subprocess.run([os.path.join(V, 'check'), c], env=env, stdout=subprocess.PIPE, stderr=subprocess.STDOUT, text=True)
+                print('\n'.join(l[:400] for l in r.stdout.splitlines() if not l.startswith('WARNING')))
+        finally:
+            subprocess.run(['git', '-C', REPO, 'worktree', 'remove', '--force', w], stdout=subprocess.DEVNULL, stderr=subprocess.DEVNULL)
+            shutil.rmtree(d, ignore_errors=True)
